@@ -58,33 +58,42 @@ def rule_setbit(repo, prop="C13"):
         ins = cb.rec.get("inputs") or []
         if cb.rec.get("output") in fp and len(ins) == 1 and not cb.impl_trait and (ins[0] == U256 or ins[0].replace(" ", "") in ("&[u8;64]", "[u8;64]")):
             total_ctors[cb.rec["path"]] = cb.rec["output"]
+    def sets_canonical_bit(v, ap, me):
+        """v = total_ctor(after[U256::set_bit](canonical(me), bit, to)) — the bit is set on the canonical value, which is then re-reduced"""
+        v = strip(v)
+        if v[0] == "call" and len(v[2]) == 1 and total_ctors.get(v[1].d) == ap:
+            x = strip(v[2][0])
+            if x[0] == "mutcall" and x[1].d == "crate::u256::U256::set_bit" and x[3] == 0:
+                canon = shared.is_canon_conv(x[2][0], ap) == me
+                fwd = x[2][1] == ("param", 2) and x[2][2] == ("param", 3)
+                return canon and fwd
+        return False
+    w = F.bodies.get("crate::Fr::set_bit")
+    wfin = repo.tb(w).final_value(("deref", 1)) if w is not None else None
+    # where the work is done: in the field layer's own set_bit (the wrapper forwards), or in the public wrapper itself
+    in_wrapper = wfin is not None and wfin[0] == "update" and wfin[2] == (("f", 0),) and sets_canonical_bit(wfin[3], "crate::fields::fp::Fr", ("field", ("init", ("deref", 1)), 0))
     for ap in fp:
         path = ap + "::set_bit"
         b = F.bodies.get(path)
         R.instance()
         if b is None:
-            R.fail_closed("%s:setbit:%s:anchor" % (prop, path), "%s not found" % path)
+            if in_wrapper:
+                R.ok(sample={"fn": path, "present": False, "note": "the field layer has no set_bit of its own; the public wrapper does the work"})
+            else:
+                R.fail_closed("%s:setbit:%s:anchor" % (prop, path), "%s not found" % path)
             continue
         fin = repo.tb(b).final_value(("deref", 1))
-        ok = False
         why = show(fin, maxdepth=5)[:220]
-        v = fin
-        if v[0] == "call" and len(v[2]) == 1 and total_ctors.get(v[1].d) == ap:
-            x = strip(v[2][0])
-            if x[0] == "mutcall" and x[1].d == "crate::u256::U256::set_bit" and x[3] == 0:
-                canon = shared.is_canon_conv(x[2][0], ap) == ("init", ("deref", 1))
-                fwd = x[2][1] == ("param", 2) and x[2][2] == ("param", 3)
-                ok = canon and fwd
+        ok = sets_canonical_bit(fin, ap, ("init", ("deref", 1)))
         R.check(ok, "%s:setbit:%s" % (prop, path), "%s does not set the bit on the canonical value and re-reduce: %s" % (path, why), b.file_line(), path,
                 sample={"fn": path, "final_self": why})
-    w = F.bodies.get("crate::Fr::set_bit")
     R.instance()
     if w is None:
         R.fail_closed("%s:setbit:wrapper" % prop, "crate::Fr::set_bit not found")
     else:
-        fin = repo.tb(w).final_value(("deref", 1))
-        ok = fin[0] == "update" and fin[2] == (("f", 0),) and fin[3][0] == "mutcall" and fin[3][1].d == "crate::fields::fp::Fr::set_bit" and fin[3][2][1:] == (("param", 2), ("param", 3))
-        R.check(ok, "%s:setbit:crate::Fr::set_bit" % prop, "Fr::set_bit does not forward to fields::Fr::set_bit(bit, to): %s" % show(fin, maxdepth=4)[:200], w.file_line(), w.rec["path"],
+        fin = wfin
+        ok = in_wrapper or (fin[0] == "update" and fin[2] == (("f", 0),) and fin[3][0] == "mutcall" and fin[3][1].d == "crate::fields::fp::Fr::set_bit" and fin[3][2][1:] == (("param", 2), ("param", 3)))
+        R.check(ok, "%s:setbit:crate::Fr::set_bit" % prop, "Fr::set_bit neither forwards to fields::Fr::set_bit(bit, to) nor sets the bit on the canonical value itself: %s" % show(fin, maxdepth=4)[:200], w.file_line(), w.rec["path"],
                 sample={"wrapper": show(fin, maxdepth=3)[:160]})
     # U256::set_bit: for every bit index, over opaque limbs — exactly one limb changes, by OR with / AND with the complement of
     # the single-bit mask 1 << (n & 63) of limb n >> 6; indices ≥ 256 change nothing and answer false
@@ -185,7 +194,8 @@ def run(ctx):
             rules.append(convert.rule_is_even("C13", repo, ls))
             rules.append(rule_canon_conv(repo))
             rules.append(convert.rule_conv_traits("C13", repo, ls))
-            rules.append(profile.rule_int_total("C13", repo, ["crate::Fr::set_bit", "crate::fields::fp::Fr::set_bit", "crate::fields::fp::Fq::set_bit", "crate::u256::U256::set_bit", "crate::u256::U256::get_bit"]))
+            rules.append(profile.rule_int_total("C13", repo, ["crate::Fr::set_bit", "crate::fields::fp::Fr::set_bit", "crate::fields::fp::Fq::set_bit", "crate::u256::U256::set_bit", "crate::u256::U256::get_bit"],
+                                                optional=("crate::fields::fp::Fr::set_bit", "crate::fields::fp::Fq::set_bit")))
     return report.emit(
         "C13", ctx.tier, ctx.seed, rules, ctx.started,
         "Byte-provenance abstract execution of every byte/hash conversion over the complete length partition (both profiles): accepted lengths, lengths on which rejection is "
